@@ -54,9 +54,17 @@ def handle (line : String) : Out :=
       let m := if triggered then min n total else n
       let cb := let l := tokensOf ntn rs m; if l.isEmpty then "-" else ",".intercalate l
       let allAnswered := triggered && n ≥ total
+      -- recorded finding `stop-sendqueue-full`: with an effective limit above the send-queue
+      -- capacity and requests still unanswered, Stop's Done may find the queue full and block
+      -- (whether it does depends on how much the engine has flushed): the model admits both
+      let inClass := stopAt > 0 && !allAnswered && eff > sendQueueCap
+      let implStop := impl.bind (fun i => (tokens i).findSome? (fun t =>
+        match t.splitOn "=" with | ["stop", v] => some v | _ => none))
       let stopStr :=
         if stopAt = 0 then "-"
-        else if allAnswered then "ok/1/noerr" else "ok/0/noerr"
+        else if allAnswered then "ok/1/noerr"
+        else if inClass && implStop == some "HANG/0/noerr" then "HANG/0/noerr"
+        else "ok/0/noerr"
       let lo := if allAnswered then total else min (m + 1) total
       let hi := if allAnswered then total else min total (m + GV.Gen.Limits.maxMessagesPerSegment)
       let reqStr := match impl.bind findReq with
@@ -69,7 +77,7 @@ def handle (line : String) : Out :=
         if stopAt = 0 then s!"cb={cb} maxout=ok stop=- *"
         else if allAnswered then s!"cb={cb} maxout=ok stop=ok/1/noerr *"
         else s!"cb={cb} maxout=ok stop=ok/*"
-      { model, spec }
+      { model, spec, cls := if inClass then "stop-sendqueue-full" else "" }
     | _, _ => badOp
   | _ => badOp
 
